@@ -685,60 +685,146 @@ func (s *c04Scan) roundRobin(prog *ssa.Program) {
 			c.Discharge("R-C04-4", consF, c.Prog.Rel(call.Pos()), "one sync/atomic add of constant 1 on &counter, not in a loop")
 		}
 	}
-	// index = (add ± const) % len(list)
+	// index = (add ± const) % len(list); the indexing may sit in a same-module helper that is
+	// handed the ticket (`lb.pick(ticket)`, `at(lb.Servers, ticket)`)
 	consI := rr.cons + "|index = ticket % len(list)"
+	consW := rr.cons + "|ticket stays 64 bits wide up to the modulo"
+	sizes := types.SizesFor("gc", "amd64")
+	minBits := int64(64)
+	var narrowAt token.Pos
+	narrowWhat := ""
+	noteWidth := func(t types.Type, pos token.Pos, what string) {
+		b, ok := t.Underlying().(*types.Basic)
+		if !ok || b.Info()&types.IsInteger == 0 {
+			return
+		}
+		if bits := sizes.Sizeof(t) * 8; bits < minBits {
+			minBits, narrowAt, narrowWhat = bits, pos, what
+		}
+	}
+	// strip follows conversions and +/- constants back towards the ticket, recording widths
+	strip := func(v ssa.Value) ssa.Value {
+		for i := 0; i < 12; i++ {
+			switch x := v.(type) {
+			case *ssa.Convert:
+				noteWidth(x.Type(), x.Pos(), "a conversion to "+x.Type().String())
+				v = x.X
+			case *ssa.ChangeType:
+				v = x.X
+			case *ssa.BinOp:
+				if x.Op != token.SUB && x.Op != token.ADD {
+					return v
+				}
+				if _, isK := x.Y.(*ssa.Const); isK {
+					v = x.X
+				} else if _, isK := x.X.(*ssa.Const); isK && x.Op == token.ADD {
+					v = x.Y
+				} else {
+					return v
+				}
+			default:
+				return v
+			}
+		}
+		return v
+	}
+	s.recvParams = map[*ssa.Parameter]bool{}
+	s.listParams = map[*ssa.Parameter]bool{}
+	if len(fn.Params) > 0 {
+		s.recvParams[fn.Params[0]] = true
+	}
+	defer func() { s.recvParams, s.listParams = nil, nil }()
 	nIdx := 0
 	var badWhy string
 	var badPos token.Pos
-	for _, b := range fn.Blocks {
-		for _, ins := range b.Instrs {
-			ia, ok := ins.(*ssa.IndexAddr)
-			if !ok || !s.isRecvList(fn, rr, ia.X, map[ssa.Value]bool{}) {
-				continue
-			}
-			nIdx++
-			rem, ok := c04StripConv(ia.Index).(*ssa.BinOp)
-			if !ok || rem.Op != token.REM {
-				badWhy, badPos = "the index into the list is not `ticket % len(list)`", ia.Pos()
-				continue
-			}
-			x := c04StripConv(rem.X)
-			for i := 0; i < 4; i++ {
-				bo, ok := x.(*ssa.BinOp)
-				if !ok || (bo.Op != token.SUB && bo.Op != token.ADD) {
-					break
+	var scan func(cur *ssa.Function, ticket ssa.Value, depth int)
+	scan = func(cur *ssa.Function, ticket ssa.Value, depth int) {
+		for _, b := range cur.Blocks {
+			for _, ins := range b.Instrs {
+				// a helper that receives the ticket
+				if call, ok := ins.(*ssa.Call); ok && depth < 2 {
+					callee := call.Call.StaticCallee()
+					if !call.Call.IsInvoke() && callee != nil && callee.Blocks != nil && callee.Pkg != nil && strings.HasPrefix(callee.Pkg.Pkg.Path(), load.ModulePath) {
+						for i, a := range call.Call.Args {
+							if i >= len(callee.Params) || ticket == nil || strip(a) != ticket {
+								continue
+							}
+							for j, a2 := range call.Call.Args {
+								if j >= len(callee.Params) {
+									break
+								}
+								if len(cur.Params) > 0 && s.recvParams[cur.Params[0]] {
+									if c04IsRecv(a2, cur.Params[0]) {
+										s.recvParams[callee.Params[j]] = true
+									} else if fa, isFA := a2.(*ssa.FieldAddr); isFA && c04IsRecv(c04Root(fa), cur.Params[0]) {
+										s.recvParams[callee.Params[j]] = true
+									}
+								}
+								if s.isRecvList(cur, rr, a2, map[ssa.Value]bool{}) {
+									s.listParams[callee.Params[j]] = true
+								}
+							}
+							noteWidth(callee.Params[i].Type(), callee.Params[i].Pos(), "parameter "+callee.Params[i].Name()+" "+callee.Params[i].Type().String()+" of "+callee.Name())
+							scan(callee, callee.Params[i], depth+1)
+						}
+					}
 				}
-				if _, isK := bo.Y.(*ssa.Const); isK {
-					x = c04StripConv(bo.X)
-				} else if _, isK := bo.X.(*ssa.Const); isK && bo.Op == token.ADD {
-					x = c04StripConv(bo.Y)
-				} else {
-					break
+				ia, ok := ins.(*ssa.IndexAddr)
+				if !ok || !s.isRecvList(cur, rr, ia.X, map[ssa.Value]bool{}) {
+					continue
 				}
-			}
-			if okAdd && x != theAdd {
-				badWhy, badPos = "the index is not computed from the value returned by the atomic add (e.g. from a second read of the counter): concurrent selectors can compute the same index, one server is chosen twice and another skipped", ia.Pos()
-				continue
-			}
-			y := c04StripConv(rem.Y)
-			lenOK := false
-			if call, ok := y.(*ssa.Call); ok {
-				if pkg, name := c04CalleePkg(call.Common()); pkg == "builtin" && name == "len" && len(call.Call.Args) == 1 {
-					lenOK = s.isRecvList(fn, rr, call.Call.Args[0], map[ssa.Value]bool{})
+				nIdx++
+				rem, ok := c04StripConv(ia.Index).(*ssa.BinOp)
+				if !ok || rem.Op != token.REM {
+					badWhy, badPos = "the index into the list is not `ticket % len(list)`", ia.Pos()
+					continue
 				}
-			}
-			if !lenOK {
-				badWhy, badPos = "the ticket is not reduced modulo the length of the server list: some servers are never or too often chosen", ia.Pos()
+				x := strip(rem.X)
+				if okAdd && x != ticket {
+					badWhy, badPos = "the index is not computed from the value returned by the atomic add (e.g. from a second read of the counter): concurrent selectors can compute the same index, one server is chosen twice and another skipped", ia.Pos()
+					continue
+				}
+				y := c04StripConv(rem.Y)
+				lenOK := false
+				if call, ok := y.(*ssa.Call); ok {
+					if pkg, name := c04CalleePkg(call.Common()); pkg == "builtin" && name == "len" && len(call.Call.Args) == 1 {
+						lenOK = s.isRecvList(cur, rr, call.Call.Args[0], map[ssa.Value]bool{})
+					}
+				}
+				if !lenOK {
+					badWhy, badPos = "the ticket is not reduced modulo the length of the server list: some servers are never or too often chosen", ia.Pos()
+				}
 			}
 		}
 	}
+	scan(fn, theAdd, 0)
 	switch {
 	case nIdx == 0:
-		c.Violate("R-C04-4", consI, c.Prog.Rel(fn.Pos()), "the round-robin ChooseServer never indexes its server list")
+		c.Violate("R-C04-4", consI, c.Prog.Rel(fn.Pos()), "the round-robin ChooseServer (and the helpers it hands the ticket to) never indexes its server list")
 	case badWhy != "":
 		c.Violate("R-C04-4", consI, c.Prog.Rel(badPos), badWhy)
 	case okAdd:
 		c.Discharge("R-C04-4", consI, c.Prog.Rel(fn.Pos()), sprintf("%d index site(s): (result of the fetch-add +/- const) %% len(receiver's list)", nIdx))
+	}
+	// width: the counter and every value on the way from the fetch-add to the modulo
+	cw := cnt.Type()
+	if n, ok := cw.(*types.Named); ok && n.Obj().Pkg() != nil && n.Obj().Pkg().Path() == "sync/atomic" {
+		switch n.Obj().Name() {
+		case "Uint32", "Int32":
+			minBits, narrowAt, narrowWhat = 32, cnt.Pos(), "the counter field of type "+cw.String()
+		}
+	} else {
+		noteWidth(cw, cnt.Pos(), "the counter field of type "+cw.String())
+	}
+	if theAdd != nil {
+		noteWidth(theAdd.Type(), theAdd.Pos(), "the result of the atomic add")
+	}
+	if okAdd && nIdx > 0 && badWhy == "" {
+		if minBits < 64 {
+			c.Violate("R-C04-4", consW, c.Prog.Rel(narrowAt), sprintf("the round-robin ticket is only %d bits wide (%s): it wraps after 2^%d selections — days of traffic on a static pool — and 2^%d is not a multiple of the list size unless that is a power of two, so at every wrap the rotation jumps and a server is chosen floor(k/n)-1 or ceil(k/n)+1 times", minBits, narrowWhat, minBits, minBits))
+		} else {
+			c.Discharge("R-C04-4", consW, c.Prog.Rel(cnt.Pos()), "counter, fetch-add result, conversions and helper parameters up to the modulo are all 64 bits wide")
+		}
 	}
 }
 
@@ -890,8 +976,12 @@ func (s *c04Scan) elements(prog *ssa.Program) {
 				if i >= len(callee.Params) {
 					break
 				}
-				if len(cur.Params) > 0 && s.recvParams[cur.Params[0]] && c04IsRecv(a, cur.Params[0]) {
-					s.recvParams[callee.Params[i]] = true
+				if len(cur.Params) > 0 && s.recvParams[cur.Params[0]] {
+					if c04IsRecv(a, cur.Params[0]) {
+						s.recvParams[callee.Params[i]] = true
+					} else if fa, isFA := a.(*ssa.FieldAddr); isFA && c04IsRecv(c04Root(fa), cur.Params[0]) {
+						s.recvParams[callee.Params[i]] = true // &lb.BaseLoadBalancer: a part of the receiver
+					}
 				}
 				if s.isRecvList(cur, im, a, map[ssa.Value]bool{}) {
 					s.listParams[callee.Params[i]] = true
